@@ -36,6 +36,10 @@ def gen(rng, tier):
             if typ == "H":
                 for _ in range(rng.choice([0, 1, 1, 2, 3])):
                     st = rng.randint(a, b)
+                    if t % 5 == 3 and rng.random() < 0.5:
+                        # the H line's start and end are what the file says, not a summary of its V lines: a variant may lie
+                        # before the start or beyond the end (tests/data/example.hap.gz has such haplotypes) and still belongs to it
+                        st = rng.choice([max(1, a - rng.randint(2, 9)), b + rng.randint(1, 30)])
                     vs.append([st, st + 1, f"rs{rng.randint(1, 9)}", rng.choice(["A", "C", "G"])])
             ch = rng.choice(contigs)
             # IDs that sort between contig names ('1.hap0' lies between contigs '1' and '2'): with `sort -k2,4`, the
